@@ -40,7 +40,9 @@ RULE = (
     "(sessions on cold / unlocked-shared / read-locked / write-locked branch objects; moves = left-hand extension by new "
     "commits incl. merges, uncommit-like move, move to another line, tag change); non-trivial = the tip's ancestry "
     "contains a merged revision (a 3-component number exists) and at least one query was answered by a locked object "
-    "that had answered other queries before; distinct = distinct event-log digests of such runs"
+    "that had answered other queries before; about 30% of the cases are two-process races instead (an unlocked reader "
+    "object asks number<->id questions while a second process moves the tip; non-trivial = a tip move landed inside a "
+    "reader call); distinct = distinct event-log digests of such runs"
 )
 COMPONENTS = {
     "real": [
@@ -58,6 +60,7 @@ ASSUMPTIONS = [
     "before: of a parentless revision may answer null: or refuse (both documented); revid:/tag: of a revision outside the tip's ancestry, last:n beyond the history and ancestor: with several LCAs are resolved but only weakly judged (any common ancestor; a refusal is accepted too when those LCAs share no ancestor, because find_unique_lca is documented to reduce 'LCAs of the LCAs' down to the graph origin and ancestor: then reports NoCommonAncestor) or not judged",
     "an error is 'the documented refusal' when it is a BzrError / vcsgraph error; the class is not compared",
     "caches live only while the object is locked (unlock clears them); 'warm' therefore means a locked object",
+    "two-process mode: the reader never locks its branch object and asks only questions that one call answers under one lock span on HEAD (get_rev_id, positive numbers / revno:N, dotted lookups both ways, revision_id_to_revno, last_revision_info); negative numbers and last:N read the tip in one call and resolve the number in another, so for an unlocked caller they are outside the promise; an answer is right when it is the model's answer for one tip that was on disk between the start and the end of the call",
 ]
 
 
@@ -74,17 +77,24 @@ def warm():
     global _warmed
     if _warmed:
         return
-    rng = random.Random(7)
-    plan = generate(rng, "quick")
-    plan["fmt"] = "2a"
-    sim = Sim(0, plan, step_cap=STEP_CAP)
-    sim.tier = "quick"
-    try:
-        execute(sim, plan)
-    except Violation:
-        pass  # warm-up only exercises the code paths; the batch judges
-    finally:
-        world.reset_stores()
+    done = set()
+    for seed in range(7, 60):
+        plan = generate(random.Random(seed), "quick")
+        mode = plan.get("mode", "single")
+        if mode in done:
+            continue
+        done.add(mode)
+        plan["fmt"] = "2a"
+        sim = Sim(0, plan, step_cap=STEP_CAP)
+        sim.tier = "quick"
+        try:
+            execute(sim, plan)
+        except Violation:
+            pass  # warm-up only exercises the code paths; the batch judges
+        finally:
+            world.reset_stores()
+        if done == {"single", "race"}:
+            break
     _warmed = True
 
 
@@ -259,6 +269,8 @@ def generate(rng, tier):
     tags = {}
     for i in range(rng.randint(0, 3)):
         tags[f"t{i + 1}"] = rng.choice(sorted(mh.revs, key=graphsim._natkey))
+    if rng.random() < 0.3:
+        return _gen_race(rng, fmt, specs, mh, gm, main)
     st = _State(mh, main, other, tags)
     ops = []
     counter = [0]
@@ -280,6 +292,47 @@ def generate(rng, tier):
                 for _ in range(rng.randint(3, 10)):
                     ops.append(["q"] + _gen_query(rng, st, recent))
     return {"fmt": fmt, "specs": specs, "main": main, "other": other, "tags": tags, "ops": ops}
+
+
+def _gen_race(rng, fmt, specs, mh, gm, main):
+    """Two simulated processes on one branch: W moves the tip (forward / backward along the
+    line, sometimes to another line) through its own Branch object; R asks an UNLOCKED branch
+    object for numbers -> ids and ids -> numbers meanwhile."""
+    revs = sorted(mh.revs, key=graphsim._natkey)
+    lh = gm.lefthand(main)
+    cur = lh[max(0, len(lh) // 2 - 1)] if rng.random() < 0.6 else main
+    start = cur
+    moves = []
+    for _ in range(rng.randint(3, 7)):
+        chain = gm.lefthand(main)
+        r = rng.random()
+        if r < 0.8 and len(chain) > 1:
+            cand = [x for x in chain if x != cur]
+        else:
+            cand = [x for x in revs if x != cur]
+        cur = rng.choice(cand)
+        moves.append([rng.choice(["settip", "settip", "genhist"]), cur])
+    tips = [start] + [m[1] for m in moves]
+    maxn = max(len(gm.lefthand(t)) for t in tips)
+    reader = []
+    for _ in range(rng.randint(25, 60)):
+        r = rng.random()
+        if r < 0.35:
+            reader.append(["get_rev_id", rng.randint(0, maxn + 1)])
+        elif r < 0.55:
+            reader.append(["spec", rng.choice(["num", "revno"]), rng.randint(1, maxn), rng.choice(["id", "hist"])])
+        elif r < 0.70:
+            reader.append(["dotted2id_of", rng.choice(revs), rng.randrange(len(tips)), rng.random() < 0.5])
+        elif r < 0.82:
+            reader.append(["id2dotted", rng.choice(revs)])
+        elif r < 0.92:
+            reader.append(["id2revno", rng.choice(revs)])
+        else:
+            reader.append(["lri"])
+    plan = {"fmt": fmt, "specs": specs, "main": start, "other": main, "tags": {}, "ops": [], "mode": "race", "actors": {"R": reader, "W": moves}, "policy": rng.choice(["random", "random", "pct"])}
+    if plan["policy"] == "pct":
+        plan["preempt_at"] = sorted(rng.sample(range(5, 1200), rng.randint(3, 10)))
+    return plan
 
 
 # ------------------------------------------------------------------------------------
@@ -428,8 +481,147 @@ def check_laws(sim, st, M, where, old=None):
         sim.fail("laws", ["laws", "none", f"{law}@{where}"], f"{law}: {detail}; tip={st.tip} lh={st.lh} map={sorted(M.items(), key=lambda kv: graphsim._natkey(kv[0]))}")
 
 
+def execute_race(sim, plan):
+    """Reader on an unlocked branch object vs. a writer moving the tip: every answer must be
+    the model's answer for ONE tip that was current during the call."""
+    from breezy import revisionspec
+
+    storesim.warm()
+    sim.disarm()
+    world.setup_sim(sim)
+    fmt = plan["fmt"]
+    mh = replay_model(plan["specs"])
+    gm = GModel(mh)
+    start = plan["main"]
+    moves = [m for m in plan["actors"].get("W", []) if m[1] in mh.revs]
+    if start not in mh.revs:
+        return
+    url = world.new_store("repo")
+    storesim.make_shared_repo(url, fmt)
+    build = storesim.make_branch(url + "build", fmt)
+    graphsim.build_dag(build, plan["specs"])
+    del build
+    url_main = url + "main"
+    mb = storesim.make_branch(url_main, fmt)
+    tips = [start] + [m[1] for m in moves]
+    maps = {}
+    for t in dict.fromkeys(tips):
+        graphsim.point_branch(mb, gm, t)
+        raw = storesim.open_branch(url_main).get_revision_id_to_revno_map()
+        M = {k.decode(): tuple(v) for k, v in raw.items()}
+        for law, detail in graphsim.revno_law_problems(gm, t, M):
+            sim.fail("laws", ["laws", "none", f"{law}@race-setup"], f"{law}: {detail}; tip={t}")
+        maps[t] = M
+    graphsim.point_branch(mb, gm, start)
+    del mb
+    applied = [start]
+    pending = [None]
+
+    def monitor(sim_, actor, phase, op, path, extra):
+        if phase == "after" and op == "put" and actor.name == "W" and path.endswith("/main/.bzr/branch/last-revision"):
+            applied.append(pending[0])
+
+    sim.monitors.append(monitor)
+    overlapped = [0]
+
+    def dec(x):
+        return x.decode() if isinstance(x, bytes) else x
+
+    def model_answer(q, t):
+        lh = gm.lefthand(t)
+        M = maps[t]
+        kind = q[0]
+        if kind == "get_rev_id":
+            n = q[1]
+            return ("ok", NULL) if n == 0 else (("ok", lh[n - 1]) if 1 <= n <= len(lh) else ("refused",))
+        if kind == "spec":
+            n = q[2]
+            return ("ok", lh[n - 1]) if 1 <= n <= len(lh) else ("refused",)
+        if kind == "dotted2id":
+            hits = [r for r, v in M.items() if v == tuple(q[1])]
+            return ("ok", hits[0]) if hits else ("refused",)
+        if kind == "id2dotted":
+            return ("ok", M[q[1]]) if q[1] in M else ("refused",)
+        if kind == "id2revno":
+            return ("ok", lh.index(q[1]) + 1) if q[1] in lh else ("refused",)
+        if kind == "lri":
+            return ("ok", (len(lh), t))
+        raise ValueError(q)
+
+    def reader():
+        b = storesim.open_branch(url_main)  # never locked by the reader itself
+        for q in plan["actors"].get("R", []):
+            q = list(q)
+            kind = q[0]
+            if kind == "dotted2id_of":
+                t = tips[q[2] % len(tips)]
+                if q[1] not in maps[t]:
+                    continue
+                q = ["dotted2id", list(maps[t][q[1]]), q[3]]
+                kind = "dotted2id"
+            elif kind in ("id2dotted", "id2revno") and q[1] not in mh.revs:
+                continue
+            i0 = len(applied)
+            try:
+                if kind == "get_rev_id":
+                    got = ("ok", dec(b.get_rev_id(q[1])))
+                elif kind == "spec":
+                    text = str(q[2]) if q[1] == "num" else f"revno:{q[2]}"
+                    spec = revisionspec.RevisionSpec.from_string(text)
+                    got = ("ok", dec(spec.as_revision_id(b) if q[3] == "id" else spec.in_history(b).rev_id))
+                elif kind == "dotted2id":
+                    got = ("ok", dec(b.dotted_revno_to_revision_id(tuple(q[1]), _cache_reverse=q[2])))
+                elif kind == "id2dotted":
+                    got = ("ok", tuple(b.revision_id_to_dotted_revno(q[1].encode())))
+                elif kind == "id2revno":
+                    got = ("ok", b.revision_id_to_revno(q[1].encode()))
+                else:
+                    info = b.last_revision_info()
+                    got = ("ok", (info[0], dec(info[1])))
+            except Exception as e:  # noqa: BLE001
+                got = ("refused",) if _is_refusal(e) else ("crash", f"{type(e).__name__}: {e}")
+            cands = applied[i0 - 1 :]
+            sim.event("R", kind, str(q[1:3]), str(got)[:80], len(cands))
+            if len(set(cands)) > 1:
+                overlapped[0] += 1
+                sim.probe("race_call_overlapped_tip_move")
+            want = {c: model_answer(q, c) for c in dict.fromkeys(cands)}
+            if got[0] == "crash" or got not in want.values():
+                sim.fail(
+                    "race",
+                    ["race", "preempt", f"{kind}:unlocked-reader"],
+                    f"unlocked reader: {q} answered {got}; tips current during the call {list(dict.fromkeys(cands))} give {want} - the answer belongs to none of them (left-hand histories: { {c: gm.lefthand(c) for c in dict.fromkeys(cands)} })",
+                )
+            sim.probe("race_query")
+
+    def writer():
+        b = storesim.open_branch(url_main)
+        for kind, rid in moves:
+            pending[0] = rid
+            if kind == "settip":
+                b.set_last_revision_info(gm.revno(rid), rid.encode())
+            else:
+                b.generate_revision_history(rid.encode())
+            sim.event("W", kind, rid)
+            sim.probe("race_move")
+
+    sim.spawn("R", reader)
+    sim.spawn("W", writer)
+    sim.run_actors(hang_timeout=120.0)
+    for n in ("R", "W"):
+        a = sim.actors[n]
+        if a.exc is not None:
+            raise a.exc
+    sim.monitors.remove(monitor)
+    sim.state_seen(("race", fmt, len(tips), overlapped[0] > 0))
+    sim.nontrivial = overlapped[0] > 0
+
+
 def execute(sim, plan):
     from breezy import branchbuilder, builtins, option, revisionspec
+
+    if plan.get("mode") == "race":
+        return execute_race(sim, plan)
 
     storesim.warm()
     sim.disarm()
